@@ -77,13 +77,15 @@ Theorem merge_avg_int :
 Proof. exact (conj avg4_int (conj avg4_rgba iavg_spec)). Qed.
 Print Assumptions merge_avg_int.
 
-(* Existence: with all four children absent the callback does nothing; otherwise
-   the parent file is removed when the merged image is completely masked (the
-   code's own predicate) and holds the merged image otherwise; no other file changes. *)
+(* Existence: with all four children absent no tile is left at p (a tile lying there
+   from an earlier cascade is removed); otherwise the parent file is removed when the
+   merged image is completely masked (the code's own predicate) and holds the merged
+   image otherwise; no other file changes. *)
 Theorem merge_exists :
   forall u dflt k orc st p st',
     walk_callback_gen u dflt k orc st p = Some st' ->
-    ((forall c, In c (children p) -> st c dflt = None) -> st' = st) /\
+    ((forall c, In c (children p) -> st c dflt = None) ->
+     forall q f, st' q f = if pos_eqb q p && fmt_eqb f dflt then None else st q f) /\
     ((exists c, In c (children p) /\ st c dflt <> None) ->
      exists m, merge_tiles_gen u dflt k (child_files orc dflt st p) = Some (Some m) /\
                (is_completely_masked m = false -> encode dflt m <> None) /\
@@ -131,6 +133,46 @@ Theorem cascade_defined :
 Proof. exact cascade_defined_lemma. Qed.
 Print Assumptions cascade_defined.
 
+(* Re-cascade of a directory that already holds tiles above the start level (the output
+   of an earlier cascade of other data): provided the walk comes by every such tile
+   (an unfiltered walk visits every position), the result is the same iterated
+   reduction of the leaves -- no tile written earlier survives or leaks into the
+   levels above.  [cascade_spec] above is the special case of an empty directory. *)
+Theorem cascade_overwrite :
+  forall u dflt k orc start st0 order st',
+    covers_present dflt st0 start order ->
+    valid_order u dflt k orc st0 start order ->
+    cascade_gen u dflt k orc st0 order = Some st' ->
+    (forall p, (pn p < start)%nat ->
+               st' p dflt = pyramid_spec u dflt k orc (fun q => st0 q dflt) (start - pn p) p) /\
+    (forall p, (start <= pn p)%nat -> st' p dflt = st0 p dflt) /\
+    (forall p f, fmt_eqb f dflt = false -> st' p f = st0 p f).
+Proof. exact cascade_spec_overwrite. Qed.
+Print Assumptions cascade_overwrite.
+
+Theorem cascade_overwrite_order_independent :
+  forall u dflt k orc start st0 o1 o2 s1 s2,
+    covers_present dflt st0 start o1 -> covers_present dflt st0 start o2 ->
+    valid_order u dflt k orc st0 start o1 -> valid_order u dflt k orc st0 start o2 ->
+    cascade_gen u dflt k orc st0 o1 = Some s1 -> cascade_gen u dflt k orc st0 o2 = Some s2 ->
+    forall p f, s1 p f = s2 p f.
+Proof. exact cascade_order_independent_overwrite. Qed.
+Print Assumptions cascade_overwrite_order_independent.
+
+(* the code before the repair (walk_callback returned without touching the store when no
+   child exists: [cascade_var true]) left such a tile in place; recorded so that a revert
+   is recognised.  Witness: a root tile and no level-1 tile, cascade from level 1. *)
+Theorem stale_parent_survived_before_fix :
+  covers_present Fits stale_st0 1 [root] /\ valid_order upd_px Fits 2 no_orc stale_st0 1 [root] /\
+  pyramid_spec upd_px Fits 2 no_orc (fun q => stale_st0 q Fits) 1 root = None /\
+  (exists st', cascade_var true upd_px Fits 2 no_orc stale_st0 [root] = Some st' /\ st' root Fits <> None) /\
+  (exists st', cascade_gen upd_px Fits 2 no_orc stale_st0 [root] = Some st' /\ st' root Fits = None).
+Proof.
+  split; [exact stale_covers_present|]. split; [exact stale_valid_order|].
+  split; [vm_compute; reflexivity|]. exact stale_root_outcomes.
+Qed.
+Print Assumptions stale_parent_survived_before_fix.
+
 (* RGB children (in particular every jpg pyramid, where pixel values are not
    modelled): the merged tile is never completely masked, so the parent exists
    exactly when one of its children does. *)
@@ -146,7 +188,6 @@ Theorem jpg_exists :
   forall u k orc st p st',
     0 < k -> (forall s o, u RGB s o = fill_px RGB s) ->
     (forall c d, In c (children p) -> st c Jpg = Some d -> exists h w, d = FLossy h w /\ 0 <= h /\ 0 <= w) ->
-    st p Jpg = None ->
     walk_callback_gen u Jpg k orc st p = Some st' ->
     (st' p Jpg <> None <-> exists c, In c (children p) /\ st c Jpg <> None).
 Proof. exact jpg_exists_lemma. Qed.
@@ -181,9 +222,9 @@ Example avg_examples :
   avg4 (PxC 9 8 7 255) (PxC 0 0 0 0) (PxC 0 0 0 0) (PxC 3 0 1 255) = PxC 3 2 2 127.
 Proof. vm_compute. repeat split; reflexivity. Qed.
 
-(* observation, outside the quantifier (no tiles above the start level beforehand):
-   with all four children absent the callback returns early and a stale parent file stays *)
-Example early_return_keeps_stale_parent : ex_stale_parent_survives = true.
+(* with all four children absent a parent file already lying there is removed
+   (before the repair it stayed: theorem stale_parent_survived_before_fix) *)
+Example early_return_removes_stale_parent : ex_stale_parent_survives = false.
 Proof. vm_compute. reflexivity. Qed.
 
 (* ======================================================================================
